@@ -107,7 +107,7 @@ PROPS = {
         level='proof',
         trusted_base=TRUSTED_VERUS,
         assumptions=[A1, A2 + ' (chars().collect, iter().collect, drain, chars().count, skip/take/collect, to_string; String character count fits usize)', A3, A4, A6, A8],
-        not_decided='split_text / split_at (node construction and sibling linkage are tree structure), XmlExpandedText, RefCell re-entrancy, the nom validity checkers themselves',
+        not_decided='the DOM-level split_text (parent lookup and sibling insertion are tree structure; its string half, info split_at, is decided), RefCell re-entrancy, the nom validity checkers themselves, XmlExpandedText::data (concatenation over live pieces: assumed callee)',
         explanation='DOM Level 1 CharacterData over the character sequence of text, comment and CDATA nodes, three layers (info helpers, info methods, DOM methods and CharacterDataMut trait defaults), every function verified against the contracts of its callees for all contents, offsets and counts, including absence of overflow and of std panics',
     ),
     'C13': dict(
@@ -199,7 +199,7 @@ MANIFEST_TEXT = {
         technique='contract-based verification: contracts asserted in loop-free Kani harnesses over full-domain symbolic scalars on the real crate (no stubs), and Verus postconditions on extracted real functions with the Kani-proved callee contract assumed',
         design_ref='DESIGN.md §4 C09, §8, §9'),
     'C16': dict(
-        level_text='Proof (Verus, unbounded: all contents, offsets, counts) that length/substring_data/insert_data/delete_data/append_data/replace_data/set_data on text, comment and CDATA nodes compute the DOM Level 1 result over the character sequence (offset past the end = IndexSizeErr, count clipped to the end), with no overflow or std panic, through three layers of real functions each checked against its callees\' contracts. split_text and XmlExpandedText not covered.',
+        level_text='Proof (Verus, unbounded: all contents, offsets, counts) that length/substring_data/insert_data/delete_data/append_data/replace_data/set_data on text, comment and CDATA nodes compute the DOM Level 1 result over the character sequence (offset past the end = IndexSizeErr, count clipped to the end), with no overflow or std panic, through three layers of real functions each checked against its callees\' contracts. info split_at (the two halves concatenate to the original, split at the clipped offset) and XmlExpandedText length/substring_data are covered; the DOM-level split_text (sibling linkage) is not.',
         level_note='Trusted: Verus+Z3, extractor, std iterator shims, the nom validity checkers as uninterpreted predicates (A3), RefCell modelled as plain ownership (A4).',
         technique='contract-based deductive verification (Verus pre/postconditions and frame on extracted real functions, modular across three layers)',
         design_ref='DESIGN.md §4 C16'),
